@@ -855,6 +855,7 @@ func (lk *lookup) hoist(s ast.Stmt) ([]ast.Stmt, bool) {
 			replaceExpr(r, old, repl)
 		}
 	}
+	// decide first, change the tree afterwards: a statement that is given up must be left as it was
 	for _, e := range before {
 		tv, has := info.Types[e]
 		if !has {
@@ -866,6 +867,8 @@ func (lk *lookup) hoist(s ast.Stmt) ([]ast.Stmt, bool) {
 		if b, isBasic := tv.Type.(*types.Basic); isBasic && b.Info()&types.IsUntyped != 0 {
 			return nil, false
 		}
+	}
+	for _, e := range before {
 		name := pl.fresh("h")
 		pre = append(pre, &ast.AssignStmt{Lhs: []ast.Expr{ast.NewIdent(name)}, Tok: token.DEFINE, Rhs: []ast.Expr{e}}, blankUse(name))
 		replace(e, ast.NewIdent(name))
